@@ -589,6 +589,7 @@ pub fn worker_job(kind: u8, payload: &[u8], io: &mut WorkerIo) -> Vec<u8> {
     match kind {
         JOB_G_C12_SWEEP => c12_sweep(payload, io),
         JOB_G_C11 => with_bworker(|bw| c11_run(bw, payload, io)),
+        crate::props_c08::JOB_C08_SPARSE => crate::props_c08::sparse_job(payload, io),
         _ => Vec::new(),
     }
 }
